@@ -303,16 +303,16 @@ def specs(tier):
             for t0 in range(3):
                 if p[0] == "N":
                     continue
-                out.append(Spec(f"step_{p}_T{t0}_n3", build_pair(3, list(p), fix={0: t0}), cfg=cfg(3), unwind=6, timeout=7200,
+                out.append(Spec(f"step_{p}_T{t0}_n3", build_pair(3, list(p), fix={0: t0}), cfg=cfg(3), unwind=6, timeout=3600,
                                 desc=f"roles {' || '.join(p)}, first executor's transaction fixed to {t0} (case split)",
                                 bounds={"n": 3, "threads": 2, "memory_model": "SC"}))
-        out.append(Spec("step_NN_n3", build_pair(3, list("NN")), cfg=cfg(3), unwind=6, timeout=7200,
+        out.append(Spec("step_NN_n3", build_pair(3, list("NN")), cfg=cfg(3), unwind=6, timeout=3600,
                         desc="two concurrent cursor claims", bounds={"n": 3, "threads": 2}))
         for p in TRIPLES:
-            out.append(Spec(f"step_{p}_n3", build_pair(3, list(p)), cfg=cfg(3), unwind=6, timeout=7200,
+            out.append(Spec(f"step_{p}_n3", build_pair(3, list(p)), cfg=cfg(3), unwind=6, timeout=3600,
                             desc=f"three concurrent roles {' || '.join(p)} from an arbitrary INV state",
                             bounds={"n": 3, "threads": 3}))
         for p in ["B", "S", "KC", "BC"]:
-            out.append(Spec(f"step_{p}_n4", build_pair(4, list(p)), cfg=cfg(4), unwind=7, timeout=7200,
+            out.append(Spec(f"step_{p}_n4", build_pair(4, list(p)), cfg=cfg(4), unwind=7, timeout=3600,
                             desc=f"roles {' || '.join(p)} at n=4", bounds={"n": 4, "threads": len(p)}))
     return out
